@@ -396,6 +396,16 @@ class Executor:
         if m:
             name = fr.func.name + "::promoted[%s]" % m.group(1)
             return self.eval_const_item(st, name)
+        m = re.match(r"^\{(alloc\d+): &&\[(.*)\]\}$", t)
+        if m and not m.group(2).strip() in ("u8",):
+            # a `static NAME: &[T]`: a reference to a reference to a slice whose LENGTH is read from the dump's allocation section
+            # (the elements stay opaque)
+            import mir as _mir
+            n = _mir.static_slice_len(self.mf, m.group(1))
+            if n is not None:
+                st.cells.setdefault(("static", m.group(1)), Adt("[]", None, [Opaque("static-elem", (m.group(1), i)) for i in range(n)]))
+                st.cells.setdefault(("staticref", m.group(1)), Ref(("static", m.group(1))))
+                return Ref(("staticref", m.group(1)))
         segs = path_segments(t)
         if len(segs) >= 2 and segs[-2] in ENUMS and segs[-1] in ENUMS[segs[-2]]:
             return Adt(segs[-2], segs[-1], [])     # unit variant used as a constant
@@ -404,6 +414,12 @@ class Executor:
                       "core::f64::<impl f64>::INFINITY": float("inf"), "core::f64::<impl f64>::NEG_INFINITY": float("-inf")}
         if t.strip() in std_consts:
             return Sc("f64", z3.FPVal(std_consts[t.strip()], F64))
+        # platform constants of std::env::consts for the platform the checks (and their native replays) run on: x86_64 linux
+        std_text = {"std::env::consts::DLL_EXTENSION": "so", "std::env::consts::DLL_SUFFIX": ".so", "std::env::consts::DLL_PREFIX": "lib",
+                    "std::env::consts::EXE_EXTENSION": "", "std::env::consts::EXE_SUFFIX": "", "std::env::consts::OS": "linux",
+                    "std::env::consts::FAMILY": "unix", "std::path::MAIN_SEPARATOR_STR": "/"}
+        if t.strip() in std_text:
+            return Opaque("strlit", '"%s"' % std_text[t.strip()])
         named = getattr(self, "const_values", None)
         if named and t.strip() in named:
             return named[t.strip()]               # integer `const` item of the crate, value read from its source by the kernel
